@@ -14,6 +14,7 @@ import json
 import os
 import pwd
 import subprocess
+import time
 
 from vlib import preload
 from vlib.common import HARNESS
@@ -471,7 +472,7 @@ def part_c(ctx, cov, dist, rng, repo, only=None):
         margs.append("reexpand")
         ctx.log("hostlist_register_rcmd re-expands the names (F09-2BR repaired): model runs as `reexpand`")
     dist["reg_variant"] = " ".join(margs)
-    n = 3000 if ctx.quick() else 20000
+    n = 2000 if ctx.quick() else 20000
     recs = []
     for c in ((gen_reg_case(rng, transports) for _ in range(n)) if only is None else only):
         files = [pool.by_id[i].file for i in c["loaded_ids"]]
@@ -567,7 +568,7 @@ def part_b(ctx, cov, dist, rng, repo, variant, only=None):
         ctx.disagreement("harness build argdump", p.stderr.decode()[-500:])
         return
     exe = os.path.join(repo, "src/pdsh/pdsh")
-    n = 500 if ctx.quick() else 4000
+    n = 350 if ctx.quick() else 4000
     pieces = ["", "a", "%h", "%", "x%", "%%", "%%%", "%u-%n", "%x%y", "--opt=%h", "a b", "%%h", "%h%u%n%%", "-n", "%n%"]
     env = {"PATH": "/usr/bin:/bin", "ZV": "q%h"}
     envblock = b"".join(("%s=%s" % kv).encode() + b"\0" for kv in env.items())
@@ -818,6 +819,90 @@ def part_d(ctx, cov, dist, rng, repo, only=None):
         peer.close()
 
 
+# ------------------------------------------------------------------------------------- (e) ssh argument vector
+
+def part_e(ctx, cov, dist, rng, repo, variant, only=None):
+    """src/modules/sshcmd.c is not built in this configuration: compile it per run from the tree under test into
+    its own module directory and give it a fake `ssh` (the argv dumper) first in PATH"""
+    from vlib.common import REPO
+    pool = preload.Pool(ctx)
+    exe = os.path.join(repo, "src/pdsh/pdsh")
+    sshdir = os.path.join(ctx.scratch, "sshmods")
+    fakebin = os.path.join(ctx.scratch, "fakebin")
+    os.makedirs(sshdir, exist_ok=True)
+    os.makedirs(fakebin, exist_ok=True)
+    os.chmod(ctx.scratch, 0o755)
+    p = subprocess.run(["gcc", "-shared", "-fPIC", "-O1", "-w", "-DHAVE_CONFIG_H", "-D_GNU_SOURCE", "-I" + REPO,
+                        "-I" + REPO + "/src/pdsh", "-I" + REPO + "/src/common", REPO + "/src/modules/sshcmd.c", "-o",
+                        os.path.join(sshdir, "sshcmd.so")], stderr=subprocess.PIPE)
+    q = subprocess.run(["gcc", "-O1", "-o", os.path.join(fakebin, "ssh"), os.path.join(HARNESS, "argdump.c")],
+                       stderr=subprocess.PIPE)
+    if p.returncode != 0 or q.returncode != 0:
+        ctx.disagreement("harness build sshcmd.so / fake ssh", (p.stderr + q.stderr).decode()[-600:])
+        return
+    if not os.path.exists(pool.shim) and not pool.build():
+        return
+    luser = pwd.getpwuid(1000).pw_name
+    n = 150 if ctx.quick() else 1500
+    dist["ssh"] = 0
+    pieces = ["echo", "it's", "a\\", "back\\\\", "%h", "100%", '"q"', "%%h", "%x", "$(x)", "a b", "-n", "%u@%h", "%", "",
+              "x%n", "'", "\\"]
+    templates = [None, None, "-x %h", "-l %u -p 22 %h", "-o [a b] %h", "%%h -x", "-x", "-i%u_key %h", "-a  -x   %h",
+                 "-l%u", "x%h%h"]
+    appends = [None, None, None, "-v", "-o X=%n"]
+
+    def gen():
+        hosts = rng.sample(["n1", "n10", "web", "web1"], rng.choice([1, 2]))
+        return {"ssh": True, "hosts": hosts, "user": rng.choice([None, "bob", luser]), "args": rng.choice(templates),
+                "append": rng.choice(appends),
+                "words": [rng.choice(pieces) for _ in range(rng.choice([1, 2, 3, 4]))]}
+    lines, recs = [], []
+    for g in ((gen() for _ in range(n)) if only is None else only):
+        words = g["words"]
+        if words[0].startswith("-"):
+            words = ["echo"] + words
+            g["words"] = words
+        argv = ["-R", "ssh", "-w", ",".join(g["hosts"])] + (["-l", g["user"]] if g["user"] else []) + words
+        env = {"PATH": fakebin + ":/usr/bin:/bin"}
+        if g["args"] is not None:
+            env["PDSH_SSH_ARGS"] = g["args"]
+        if g["append"] is not None:
+            env["PDSH_SSH_ARGS_APPEND"] = g["append"]
+        r = preload.run_pdsh(pool, exe, argv, moddir_env=sshdir, fake_dir=sshdir, dirlist=["sshcmd.so"], extra_env=env,
+                             argv0=exe)
+        got = {}
+        for l in r["out"].splitlines():
+            if ": argv " in l:
+                h, rest = l.split(": argv ", 1)
+                got[h] = rest.split()[1:]
+        opt = lambda v: "~" if v is None else hx(v)
+        for rank, h in enumerate(g["hosts"]):
+            lines.append("ssh %s %s %s %d 0 %s %s ~ %s %s" % (hx(h), hx(luser), hx(g["user"] or luser), rank, opt(g["append"]),
+                                                            opt(g["args"]), hx(" ".join(words)), " ".join(hx(w) for w in words)))
+            recs.append((g, argv, h, got.get(h), r))
+    ml = ctx.model("rcmd", "".join(l + "\n" for l in lines), args=["model", variant]) if lines else []
+    for (g, argv, h, got, r), m in zip(recs, ml):
+        cov["evaluations"] += 1
+        dist["ssh"] += 1
+        case = {"argv": argv, "PDSH_SSH_ARGS": g["args"], "PDSH_SSH_ARGS_APPEND": g["append"], "host": h, "gen": g}
+        if got is None:
+            ctx.offender("ssh:no-output", "the fake ssh was not started for %s (rc %s): %s" % (h, r["rc"], r["err"][-200:]), case)
+            continue
+        if m == "ub":
+            continue
+        if got != m.split()[1:]:
+            ctx.disagreement("ssh model vs sshcmd.c", "ssh saw `%s`, model `%s`" % ([unhx(x) for x in got],
+                                                                                  [unhx(x) for x in m.split()[1:]]), case)
+        # the command text must reach the transport unchanged: the last arguments are the command words
+        want = [hx(w) for w in g["words"]]
+        if got[-len(want):] != want:
+            esc = any(x in w for w in g["words"] for x in ("%h", "%u", "%n", "%%"))
+            sig = "ssh:percent-in-command" if esc else "ssh:mismatch"
+            dist["offenders"][sig] = dist["offenders"].get(sig, 0) + 1
+            ctx.offender(sig, "the command words reach ssh as %s instead of %s" % (
+                [unhx(x) for x in got[-len(want):]], g["words"]), case)
+
+
 def replay_items(ctx):
     """sorts the case(s) of a replay file written by ctx.finish into the four parts of this check:
     (a) protocol lines for the in-process harness, (b) -R exec runs, (c) registry runs, (d) rsh runs"""
@@ -833,10 +918,12 @@ def replay_items(ctx):
                     items.append(json.loads(txt.split(":: case=", 1)[1]))
                 except ValueError:
                     ctx.log("replay: a recorded case is truncated in %s, skipped" % ctx.replay)
-    ra, rb, rc_, rd = [], [], [], []
+    ra, rb, rc_, rd, re_ = [], [], [], [], []
     for it in items:
         g = it.get("gen")
-        if it.get("line") and it["line"].split()[0] in ("fmt", "args"):
+        if g and g.get("ssh"):
+            re_.append(g)
+        elif it.get("line") and it["line"].split()[0] in ("fmt", "args"):
             ra.append(it["line"])
         elif g and "addrs" in g:
             rd.append(g)
@@ -851,9 +938,9 @@ def replay_items(ctx):
             if k is not None:
                 rb.append({"hosts": av[av.index("-w") + 1].split(","), "user": av[av.index("-l") + 1] if "-l" in av[:k] else None,
                            "args": av[k + 1:]})
-    if not (ra or rb or rc_ or rd):
+    if not (ra or rb or rc_ or rd or re_):
         ctx.broken.append(("C-BROKEN", "replay", "no replayable case in " + str(ctx.replay)))
-    return ra, rb, rc_, rd
+    return ra, rb, rc_, rd, re_
 
 
 def run(ctx):
@@ -873,10 +960,10 @@ def run(ctx):
     dist = {"fmt": 0, "args": 0, "cli": 0, "reg": 0, "reg_fatal": 0, "reg_nodomain": 0, "nodomain": 0, "offenders": {},
             "branches": {}}
     if getattr(ctx, "replay", None):
-        ra, rb, rc_, rd = replay_items(ctx)
+        ra, rb, rc_, rd, re_ = replay_items(ctx)
         cov["rule"] = "replay of %s: exactly the recorded case(s)" % ctx.replay
         variant = part_a(ctx, cov, dist, rng, only=ra)
-        repo = ctx.repo_build() if (rb or rc_ or rd) else None
+        repo = ctx.repo_build() if (rb or rc_ or rd or re_) else None
         if repo is not None and variant is not None:
             if rb:
                 part_b(ctx, cov, dist, rng, repo, variant, only=rb)
@@ -884,13 +971,19 @@ def run(ctx):
                 part_c(ctx, cov, dist, rng, repo, only=rc_)
             if rd:
                 part_d(ctx, cov, dist, rng, repo, only=rd)
+            if re_:
+                part_e(ctx, cov, dist, rng, repo, variant, only=re_)
     else:
         variant = part_a(ctx, cov, dist, rng)
         repo = ctx.repo_build()
         if repo is not None and variant is not None:
-            part_b(ctx, cov, dist, rng, repo, variant)
-            part_c(ctx, cov, dist, rng, repo)
-            part_d(ctx, cov, dist, rng, repo)
+            for name, f in (("-R exec", lambda: part_b(ctx, cov, dist, rng, repo, variant)),
+                            ("registry", lambda: part_c(ctx, cov, dist, rng, repo)),
+                            ("rsh wire", lambda: part_d(ctx, cov, dist, rng, repo)),
+                            ("ssh argv", lambda: part_e(ctx, cov, dist, rng, repo, variant))):
+                t0 = time.time()
+                f()
+                dist.setdefault("wall_s", {})[name] = round(time.time() - t0, 1)
     cov["distribution"] = dist
     return ctx.finish(
         LEVEL, cov,
